@@ -10,6 +10,7 @@ import (
 	"github.com/btcsuite/btcd/txscript"
 	"github.com/btcsuite/btcd/wire"
 	"github.com/btcsuite/btcwallet/waddrmgr"
+	"github.com/btcsuite/btcwallet/walletdb"
 	"github.com/btcsuite/btcwallet/wtxmgr"
 	"pgregory.net/rapid"
 
@@ -33,6 +34,9 @@ type Scenario struct {
 	Accounts map[waddrmgr.KeyScope][]uint32
 }
 
+// WrapNext, when set, wraps the database of the next scenario's wallet.
+var WrapNext func(walletdb.DB) walletdb.DB
+
 // NewScenario creates the wallet on a fresh chain of `blocks` blocks, starts
 // and unlocks it, creates `extraAccounts` additional accounts per scope and
 // obtains external and change addresses on every (scope, account).
@@ -40,6 +44,7 @@ func NewScenario(t *rapid.T, prop string, c *evid.Case, blocks int, extraAccount
 	seed := rapid.SliceOfN(rapid.Byte(), 32, 32).Draw(t, "seed")
 	t0 := time.Unix(1_700_000_000, 0)
 	f := New(t, prop, &chaincfg.RegressionNetParams, seed, t0, 0)
+	f.WrapDB = WrapNext
 	f.Text = c.Text
 	f.Style = simchain.Style(rapid.IntRange(0, 1).Draw(t, "style"))
 	s := &Scenario{T: t, F: f, C: c, Book: NewBook(), Locked: map[wire.OutPoint]bool{}, Leased: map[wire.OutPoint]wtxmgr.LockID{},
